@@ -438,6 +438,12 @@ def optWarn (sp : ClassSpec α) (s : State α) : Bool :=
   | .nuNearBound =>
     decide (absA (optGet s "nu" - ((s.dim : Nat) : α) / (two : α) + (one : α)) < (0.01 : α))
 
+/-- `set_opt_args`: the constructor keyword if given, else the default -/
+def mergeOpt (given : List (String × α)) (o : OptArg α) : OptArg α :=
+  match given.find? (fun p => p.1 == o.name) with
+  | some p => { o with val := p.2 }
+  | none => o
+
 /-- the `var` / `var_raw` step of `__init__` (done before and after `integral_scale`) -/
 def initVar (sp : ClassSpec α) (cfg : Cfg α) (s : State α) : Except Err (State α) :=
   match cfg.varRaw with
@@ -458,10 +464,7 @@ def construct (sp : ClassSpec α) (cfg : Cfg α) : Except Err (State α × Bool)
   | .ok (d, w1) =>
     if cfg.opt.any (fun p => !(sp.opts d).any (fun o => o.name == p.1)) then
       .error (.unmodelled "unknown optional argument") else
-    let opts := (sp.opts d).map fun o =>
-      match cfg.opt.find? (fun p => p.1 == o.name) with
-      | some p => { o with val := p.2 }
-      | none => o
+    let opts := (sp.opts d).map (mergeOpt cfg.opt)
     match (match cfg.rescale with | some x => some x | none => sp.defaultRescale) with
     | none => .error (.unmodelled "irrational default rescale")
     | some r =>
